@@ -116,6 +116,26 @@ static void enumerate(int l, int stop)
 	ev("fe", l, 0, 0, res ? 1 : 0);
 }
 
+static bool step();
+// forEach whose function is user code: it logs what it is shown, then runs script items until its "t"
+static void enumerateUser(int l)
+{
+	ev("fub", l, 0, 0, 0);
+	L[l]->forEach([l](const Handle & h, const CL::Callback & cb) {
+#if W_CALLBACK == 1
+		int id = cb.id;
+#else
+		const Cb * t = cb.target<Cb>(); int id = t ? t->id : -1;
+#endif
+		const int hn = numberOf(h);
+		ev("vu", l, hn, id, 0);
+		++g_depth;
+		while(ip < script.size()) { if(script[ip].k == "x") { ++ip; break; } if(! step()) break; }
+		--g_depth;
+		ev("vr", l, hn, 0, 0);
+	});
+	ev("fue", l, 0, 0, 0);
+}
 static void invoke(int l, int arg)
 {
 	ev("vb", l, arg, 0, 0);
@@ -142,6 +162,7 @@ static bool step()
 	else if(k == "o") { bool r = L[o.a]->ownsHandle(handleOf(o.b)); ev("o", o.a, o.b, 0, r ? 1 : 0); }
 	else if(k == "e") { bool r = L[o.a]->empty(); bool r2 = ! (bool)*L[o.a]; ev("e", o.a, 0, 0, (r ? 1 : 0) + (r != r2 ? 2 : 0)); }
 	else if(k == "f" || k == "g") { enumerate(o.a, o.b); }
+	else if(k == "fu") { enumerateUser(o.a); }
 #if W_CALLBACK == 1
 	else if(k == "hl") { bool r = eventpp::hasListener(*L[o.a], Cb(o.b)); ev("hl", o.a, o.b, 0, r ? 1 : 0); }
 	else if(k == "ha") { bool r = eventpp::hasAnyListener(*L[o.a]); ev("ha", o.a, 0, 0, r ? 1 : 0); }
